@@ -2,10 +2,12 @@
 
 Real code exercised: idpyoidc.server.oauth2.authorization.verify_uri / get_uri, the OIDC and OAuth2
 authorization endpoints (parse_request -> process_request -> do_response, driven the way the example
-host application drives them), Message.request / to_urlencoded, the form_post page, and the OIDC
-end-session endpoint (post_logout_redirect_uri).
+host application drives them), Message.request / to_urlencoded, the form_post page, the OIDC
+end-session endpoint (post_logout_redirect_uri), and the dynamic registration endpoint (lists of redirect
+URIs through Registration.verify_redirect_uris; the stored pairs are then what the authorization endpoint matches).
 
-Model side (coqc): Model/Uri.v (unquote / urlparse / hostname / port / parse_qs / verify_uri / decide),
+Model side (coqc): Model/RegFlow.v (registration of a LIST of redirect URIs = Model/Registration.v verify_uris, composed with the
+matcher: register / verify_registered / decide_registered), Model/Uri.v (unquote / urlparse / hostname / port / parse_qs / verify_uri / decide),
 Model/Delivery.v (query, fragment, form_post, logout target) and Model/Flight.v (several requests in flight
 at one endpoint object: the schedule of calls is run on the model's state-passing endpoint; the completion
 step `complete` under the registration in force when the response is built, `answer_at` for the history of a
@@ -48,8 +50,19 @@ RULE = ("redirect_uri strings derived from every registered URI of 16 client con
         "URIs, x response types x modes; valid requests that also carry the names of the provider's own result "
         "dictionaries (error, return_uri, response_args, redirect_location, response_msg, fragment_enc, ... 20 names: each "
         "alone with every listed value, next to error / return_uri / response_args, random subsets, all at once) through "
-        "parse_request -> process_request -> do_response(**result); a case is distinct by (configuration, endpoint "
-        "type, uri, mode, state, extra parameters) resp. (requests, schedule, re-registrations)")
+        "parse_request -> process_request -> do_response(**result); clients that REGISTER: lists of 1-4 redirect URIs through "
+        "the real dynamic registration endpoint (native: custom scheme with / without authority, with / without query, http loopback with and without "
+        "port, with and without query, the same base with two different queries and with none; web: https with / without query, "
+        "same base other query, port, userinfo, other host, http loopback for code-only clients) - every URI alone, every ordered "
+        "pair, every order of every 3- and 4-subset of the core kinds, random longer mixtures, response_types that do and do not "
+        "force https; the stored pairs and the registration response are compared with the list sent (each URI its own base and "
+        "query, the same as when registered alone), then for every registered URI the exact URI and its near misses (query "
+        "dropped / changed / extended / reordered, the query of each neighbour on this base, port changed / dropped / added, host, "
+        "scheme, path, userinfo, fragment) are put to verify_uri and to the whole authorization endpoint on the OIDC provider (the "
+        "registered client) and on the OAuth2 provider (a client record carrying the stored pairs); lists containing a URI that "
+        "may not be registered, at every position; a case is distinct by (configuration, endpoint "
+        "type, uri, mode, state, extra parameters) resp. (requests, schedule, re-registrations) resp. (application type, "
+        "response types, list of URIs, requested URI)")
 ASSUMPTIONS = [
     "CPython urllib.parse / html.escape behave as modelled on the ASCII fragment (validated differentially on every run)",
     "bracketed hosts outside the literal table of Model/Uri.v and percent-escapes decoding to bytes >= 0x80 are Unmodelled",
@@ -62,6 +75,10 @@ ASSUMPTIONS = [
     "completion: a failed completion is produced by ending the session between login and authz_part2; the session-management "
     "branch of authz_part2 (check_session_iframe configured: 'No such session' / 'Authentication has timed out' errors) is not "
     "configured on the providers driven here",
+    "registration: URIs inside the fragment of Model/RegUri.v (ASCII, no bracketed host but [::1]); the provider the clients "
+    "register at states all seven response types (the requested response_types are narrowed to the provider's before the "
+    "redirect URIs are judged); a registered client asks for the code flow (verify_response_type reads response_types_supported, "
+    "which a registration does not write); sector_identifier_uri is not used; what MAY be registered is C19's subject, here refused lists are only compared with the model",
 ]
 
 LOOP6 = "0000:0000:0000:0000:0000:0000:0000:0001"
@@ -659,10 +676,10 @@ class Op:
     """one provider (OIDC or OAuth2) with one reconfigurable client"""
     current = None
 
-    def __init__(self, oidc):
+    def __init__(self, oidc, extra=None):
         import srv
         self.oidc = oidc
-        self.server = srv.make_server(oidc=oidc)
+        self.server = srv.make_server(oidc=oidc, extra=extra) if extra else srv.make_server(oidc=oidc)
         self.context = self.server.context
         self.ep = self.server.get_endpoint("authorization")
         self.issued = None
@@ -958,6 +975,7 @@ class Run:
         self.ops = {"oidc": Op(True), "oauth2": Op(False)}
         self.ud = UrlDiff(ctx)
         self.vcases, self.dcases, self.urlcases, self.formcases = [], [], [], []
+        self.rdcases = []           # decisions for dynamically registered clients (RegFlow)
         self.n_accept_full = 0
 
     # ---- verify_uri, model + oracle
@@ -983,21 +1001,26 @@ class Run:
         return out, allowed, reasons
 
     # ---- the whole endpoint
-    def endpoint_case(self, cfg, etype, label, uri, rng, rtype=None, mode="random", state=None, extra=None):
+    def endpoint_case(self, cfg, etype, label, uri, rng, rtype=None, mode="random", state=None, extra=None, dyn=None):
         """extra: further request parameters (the smuggle family: names that mean something only in the provider's
-        own result dictionaries)"""
+        own result dictionaries).
+        dyn: the client is one that registered through the real registration endpoint (RegFlow): {"cid": its id at the
+        provider of this endpoint type, "op": that provider, "rtypes": response types it may ask for, "coq": "ct, code_only,
+        uris" of the model case, "rec": the registration}; cfg = (label, application type, component table of the URIs it SENT) is
+        then only what the oracle compares with - nothing is written into the client database here"""
         ctx = self.ctx
         name, app, regs = cfg
-        op = self.ops[etype]
-        op.configure(cfg)
+        op = (dyn or {}).get("op") or self.ops[etype]
+        if dyn is None:
+            op.configure(cfg)
         if rtype is None:
-            rtype = rng.choice(RTYPES_OIDC if etype == "oidc" else RTYPES_OAUTH)
+            rtype = rng.choice(dyn["rtypes"] if dyn else (RTYPES_OIDC if etype == "oidc" else RTYPES_OAUTH))
         if mode == "random":
             mode = rng.choice(MODES)
         if state is None:
             state = hostile(rng) if rng.random() < 0.8 else "st"
-        req = {"client_id": "client_1", "response_type": rtype, "scope": "openid" if etype == "oidc" else "profile",
-               "state": state, "nonce": hostile(rng)}
+        req = {"client_id": dyn["cid"] if dyn else "client_1", "response_type": rtype,
+               "scope": "openid" if etype == "oidc" else "profile", "state": state, "nonce": hostile(rng)}
         if uri is not None:
             req["redirect_uri"] = uri
         if mode:
@@ -1011,6 +1034,8 @@ class Run:
         obs = op.host(req)
         rec = {"kind": "endpoint", "config": name, "endpoint_type": etype, "mutation": label, "request": req,
                "stage": obs["stage"], "redirect": obs["redirect"], "page": obs["page"], "direct": obs["direct"]}
+        if dyn:
+            rec["registration"] = dyn["rec"]
         if extra:
             rec["extra"] = dict(extra)
             rec["result_type"] = obs.get("result_type")
@@ -1058,7 +1083,11 @@ class Run:
             else:
                 code, u = 0, obs["parsed_redirect_uri"]
             skip = (uri is None and etype == "oidc")      # the OIDC request class itself requires redirect_uri
-            if not skip:
+            if not skip and dyn:
+                # registration and decision in ONE model case: the stored pairs are the model's own
+                self.rdcases.append(("(%s, %s, %s, (%s, %s))" % (dyn["coq"], coq_bool(etype == "oidc"),
+                                                               coq_opt(uri, coq_str, "pystr"), coq_n(code), coq_str(u)), rec))
+            elif not skip:
                 self.dcases.append(("(%s, %s, %s, %s, (%s, %s))" % (coq_regs(regs), coq_bool(native), coq_bool(etype == "oidc"),
                                                                   coq_opt(uri, coq_str, "pystr"), coq_n(code), coq_str(u)), rec))
         if obs["redirect"] is not None and obs.get("final_args") is not None and obs["return_uri"] is not None:
@@ -2017,6 +2046,330 @@ class Logout:
                  "label": "logoutverify", "diag": "diag_verify"}]
 
 
+# ------------------------------------------------------------------ registration -> stored form -> authorization
+# The configurations above put (base, query) pairs straight into the client database.  Here the client REGISTERS: a LIST
+# of redirect URIs goes through the real registration endpoint (Registration.verify_redirect_uris), and what the
+# authorization endpoint then serves is compared with the list the client sent.
+NATIVE_POOL = [
+    ("custom", R("com.example.app", "cb", "", sep="://")),
+    ("custom-path", R("org.example.other", "done", "/x", sep="://")),
+    ("custom-noauth", R("com.example.app", "", "/cb", sep=":")),
+    ("custom-q", R("com.example.app", "cb", "", sep="://", qd={"x": ["1"]})),
+    ("loop-q", R("http", "127.0.0.1", "/cb", port="8080", qd={"tenant": ["alpha"]})),
+    ("loop-q2", R("http", "127.0.0.1", "/cb", port="8080", qd={"tenant": ["beta"]})),        # same base, other query
+    ("loop", R("http", "127.0.0.1", "/cb", port="8080")),                                     # same base, no query
+    ("loop-noport-q", R("http", "127.0.0.1", "/back", qd={"k": ["v"], "a": ["1", "2"]})),
+    ("loop-noport", R("http", "localhost", "/done")),
+    ("name-port-q", R("http", "localhost", "/cb", port="8000", qd={"x": ["1"]})),
+]
+NATIVE_CORE = [["custom", "loop-q", "loop", "loop-q2"], ["custom-q", "loop-q", "loop-noport", "custom"]]
+WEB_POOL = [
+    ("https-q", R("https", "client.example.com", "/cb", qd={"foo": ["bar"]})),
+    ("https-q2", R("https", "client.example.com", "/cb", qd={"foo": ["baz"]})),                 # same base, other query
+    ("https", R("https", "client.example.com", "/cb")),                                        # same base, no query
+    ("https-port-q", R("https", "client.example.com", "/app/cb2", port="8443", qd={"a": ["1", "2"], "b": ["x"]})),
+    ("https-userinfo", R("https", "client.example.com", "/cb", userinfo="user")),
+    ("https-other-q", R("https", "rp.example.org", "/cb", qd={"foo": ["bar"]})),
+    ("loop-q", R("http", "127.0.0.1", "/cb", port="8080", qd={"tenant": ["alpha"]})),           # code flow only
+    ("loop", R("http", "localhost", "/cb", port="8080")),
+]
+WEB_CORE = [["https-q", "https-q2", "https", "loop-q"]]
+# URIs no registration may contain (the whole request is refused whatever else it lists)
+REG_BAD = {"native": [("bad-https", "https://client.example.com/cb"), ("bad-fragment", "http://127.0.0.1:8080/cb#f"),
+                      ("bad-v6", "http://[::1]/cb"), ("bad-host", "http://client.example.com/cb")],
+           "web": [("bad-custom", "com.example.app://cb"), ("bad-fragment", "https://client.example.com/cb?foo=bar#f"),
+                   ("bad-ftp", "ftp://client.example.com/cb")]}
+# what is asked of the authorization endpoint for every registered URI (component mutations of CM)
+REG_NEAR_CORE = ["exact", "q-drop-all", "q-change-value", "q-add", "port-inc", "port-drop", "path-add", "scheme-swap"]
+REG_NEAR = ["exact", "q-drop-all", "q-change-value", "q-add", "q-drop-first", "q-reverse", "port-inc", "port-drop", "port-add-443",
+            "host-localhost", "host-upper", "scheme-swap", "path-add", "path-slash", "ui-drop", "ui-add", "tail-hash"]
+# response_types of the registration request: only ["code"] exactly lets a web client register http URIs.  The provider the
+# clients register at states all seven response types (the registration endpoint narrows the requested list to the
+# provider's before it looks at the redirect URIs: with a code-only provider every web client may register http)
+REG_RT_SUPPORTED = ["code", "id_token", "id_token token", "code id_token", "code token", "code id_token token", "token"]
+REG_RTS = {"native": [["code"], ["code", "id_token"], ["code id_token", "code"], ["id_token token"]],
+           "web-any": [["code"]], "web-https": [["code"], ["code", "id_token"], ["code id_token token"], ["id_token", "code"]]}
+# near misses the property text still counts as the registered URI (nothing but the ignored loopback port of a native client, or
+# the order of the query parameters, differs): these must be SERVED
+REG_SAME = ("exact", "port-inc", "port-drop", "port-add-443", "q-reverse")
+
+
+def is_custom(r):
+    return r["scheme"] not in ("http", "https")
+
+
+def own_stored(r):
+    """the registered URI as ITS OWN base and query (from the component table, nothing parsed)"""
+    return (reg_base(r), copy.deepcopy(r["qd"]) or {})
+
+
+def reg_lists(rng, quick):
+    """(family, application type, [(kind, R)]) - every single URI, every ordered pair, every order of every 3- and
+    4-subset of the core kinds (custom scheme / loopback or https with query / same base without query / same base with
+    another query), random longer mixtures"""
+    out = []
+    for app, pool, core in (("native", NATIVE_POOL, NATIVE_CORE), ("web", WEB_POOL, WEB_CORE)):
+        byk = dict(pool)
+        for kr in pool:
+            out.append(("single", app, [kr]))
+        for a in pool:
+            for b in pool:
+                if a[0] != b[0]:
+                    out.append(("pair", app, [a, b]))
+        for co in core:
+            for n in (3, 4):
+                for sub in subsets(co, n):
+                    for perm in permutations(list(sub)):
+                        out.append(("core-%d" % n, app, [(k, byk[k]) for k in perm]))
+        for _ in range(12 if quick else 600):
+            out.append(("mixture", app, rng.sample(pool, rng.randint(3, 4))))
+    return out
+
+
+def subsets(l, n):
+    if n == 0:
+        return [[]]
+    if len(l) < n:
+        return []
+    return [[l[0]] + t for t in subsets(l[1:], n - 1)] + subsets(l[1:], n)
+
+
+class RegFlow:
+    """registration of a list of redirect URIs at the real registration endpoint, then the authorization endpoint's
+    decisions for every registered URI and its near misses"""
+
+    def __init__(self, run_):
+        self.run_, self.ctx = run_, run_.ctx
+        import logging
+        logging.getLogger("idpyoidc.server.oidc.registration").setLevel(logging.CRITICAL)     # refusals are logged as errors
+        logging.getLogger("idpyoidc.server.configure").setLevel(logging.ERROR)
+        self.op = Op(True, extra={"capabilities": {"response_types_supported": list(REG_RT_SUPPORTED)}})
+        self.reg_ep = self.op.server.get_endpoint("registration")
+        self.sh = Shared()
+        self.rcases, self.rvcases = [], []
+        self.single = {}          # (application type, code flow only, uri) -> what a registration of this URI ALONE stores
+        self.n_reg = 0
+
+    # ---- the real registration endpoint
+    def register(self, app, rts, uris):
+        body = {"application_type": app, "redirect_uris": list(uris), "response_types": list(rts),
+                "grant_types": ["authorization_code", "implicit"], "client_name": "c06 registration"}
+        ob = {"out": None, "cid": None, "echo": None, "stored": None}
+        try:
+            p = self.reg_ep.parse_request(json.dumps(body))
+            if hasattr(p, "keys") and "error" in p and "redirect_uris" not in p:
+                ob["out"] = "refused:" + str(p.get("error"))
+                return ob
+            res = self.reg_ep.process_request(p)
+        except Exception as e:
+            ob["out"] = "exc:" + type(e).__name__
+            return ob
+        if "response_args" not in res:
+            ob["out"] = "refused:" + str(res.get("error"))
+            return ob
+        ra = res["response_args"]
+        ob.update(out="ok", cid=ra["client_id"], echo=list(ra.get("redirect_uris") or []),
+                  stored=copy.deepcopy(self.op.context.cdb[ra["client_id"]].get("redirect_uris")),
+                  rtypes=list(self.op.context.cdb[ra["client_id"]].get("response_types") or ["code"]))
+        return ob
+
+    @staticmethod
+    def stored_ok_shape(st):
+        return (isinstance(st, list) and all(
+            isinstance(e, (tuple, list)) and len(e) == 2 and isinstance(e[0], str) and isinstance(e[1], dict)
+            and all(isinstance(k, str) and isinstance(v, list) and all(isinstance(x, str) for x in v) for k, v in e[1].items())
+            for e in st))
+
+    def coq_obs(self, ob):
+        if ob["out"] == "ok":
+            if not self.stored_ok_shape(ob["stored"]):
+                return "Unmodelled"
+            st = coq_list(["(%s, %s)" % (self.sh.s(b), coq_qd(q)) for b, q in ob["stored"]], "(pystr * qdict)")
+            return "(Ok (%s, %s))" % (st, coq_list([self.sh.s(u) for u in ob["echo"]], "pystr"))
+        if ob["out"] == "refused:invalid_redirect_uri":
+            return "(Err (Refused 0))"
+        if ob["out"] == "refused:invalid_configuration_request":
+            return "(Err ValueError)"
+        return "(Err TypeError)"
+
+    # ---- oracle on the registration itself
+    def oracle_registration(self, app, code_only, items, ob, rec):
+        ctx = self.ctx
+        uris = [reg_exact(r) for _, r in items]
+        echo, stored = ob["echo"], ob["stored"]
+        if len(echo) != len(uris):
+            ctx.violation("registration-echo-mismatch", "the client sent %r, the registration response names %r" % (uris, echo), rec)
+        else:
+            for i, ((kind, r), e) in enumerate(zip(items, echo)):
+                m = RFC3986.match(e)
+                sch, auth, path, query, frag = m.groups()
+                want = RFC3986.match(reg_base(r)).groups()[:3]
+                if (sch, auth, path) != want or frag is not None or conventional_query(query) != (r["qd"] or {}):
+                    ctx.violation("registration-echo-mismatch", "redirect URI %d sent as %r is named %r in the registration response "
+                                  "(list sent: %r)" % (i, uris[i], e, uris), rec)
+        if not self.stored_ok_shape(stored) or len(stored) != len(uris):
+            ctx.violation("registration-stored-not-own", "the client sent %r, stored is %r" % (uris, stored), rec)
+            return
+        for i, (kind, r) in enumerate(items):
+            got = (stored[i][0], stored[i][1])
+            if is_custom(r) and r["qd"] and got == (uris[i], {}):
+                # the behaviour repaired by d77dc7b, under its own key
+                ctx.violation("custom-scheme-query-forgotten", "custom-scheme redirect URI %r is stored unsplit, as %r: its query "
+                              "component is not part of what is matched" % (uris[i], got), rec)
+            elif got != own_stored(r):
+                ctx.violation("registration-stored-not-own", "redirect URI %d of %r, %r, is stored as %r instead of its own base "
+                              "and query %r" % (i, uris, uris[i], got, own_stored(r)), rec)
+            alone = self.single.get((app, code_only, uris[i]))
+            if alone is not None and got != alone:
+                ctx.violation("registration-neighbour-influence", "redirect URI %r is stored as %r when registered alone and as %r "
+                              "at position %d of %r" % (uris[i], alone, got, i, uris), rec)
+
+    # ---- one registration and everything asked afterwards
+    def flow(self, rng, family, app, rts, items, bad=None, full=True):
+        """bad: (position, kind, uri) - a URI no registration may contain is put into the list"""
+        ctx, run_ = self.ctx, self.run_
+        uris = [reg_exact(r) for _, r in items]
+        sent = list(uris)
+        if bad is not None:
+            sent.insert(bad[0], bad[2])
+        code_only = [rt for rt in rts if rt in REG_RT_SUPPORTED] == ["code"]
+        ob = self.register(app, rts, sent)
+        self.n_reg += 1
+        reginfo = {"application_type": app, "response_types": list(rts), "redirect_uris": sent, "family": family,
+                   "items": [[k, r] for k, r in items], "bad": list(bad) if bad else None}
+        rec = dict(reginfo, kind="registration", out=ob["out"], echo=ob["echo"], stored=ob["stored"])
+        ctx.case_seen(rec, True)
+        ctx.count("registration:%s" % ob["out"])
+        ctx.count("registration-list:%s %s x%d" % (app, family, len(sent)))
+        l_c = self.sh.share(coq_list([self.sh.s(u) for u in sent], "pystr"), "list pystr")
+        model = "%s, %s, %s" % (self.sh.s(app), coq_bool(code_only), l_c)
+        self.rcases.append(("(%s, %s)" % (model, self.coq_obs(ob)), rec))
+        for u in sent:
+            run_.ud.add(u)
+        if ob["out"] != "ok":
+            if bad is None:
+                ctx.count("registration-refused-without-bad-uri")
+            return ob
+        if bad is not None:
+            # C19's domain (what may be registered); here only: the model agrees, and nothing more is asked
+            return ob
+        if len(items) == 1 and self.stored_ok_shape(ob["stored"]) and len(ob["stored"]) == 1:
+            self.single.setdefault((app, code_only, uris[0]), (ob["stored"][0][0], ob["stored"][0][1]))
+        self.oracle_registration(app, code_only, items, ob, rec)
+        # ---- the authorization endpoint's answers: OIDC provider = the registered client itself; OAuth2 provider = a
+        # client whose record carries the pairs the registration stored
+        regs = [r for _, r in items]
+        native = app == "native"
+        o2 = run_.ops["oauth2"]
+        ci = o2.context.cdb["client_1"]
+        ci["redirect_uris"] = copy.deepcopy(ob["stored"])
+        ci["application_type"] = app
+        asked = {}
+        for i, (kind, r) in enumerate(items):
+            c = comps_of(r)
+            for label in (REG_NEAR if full else REG_NEAR_CORE):
+                try:
+                    asked.setdefault(comps_str(CM[label](c)), "%s[%d]:%s" % (kind, i, label))
+                except Exception:
+                    pass
+            # this URI's base with the query of each neighbour, and with a neighbour's query added to its own
+            for j, (kind2, r2) in enumerate(items):
+                if j != i and (r2["qd"] or None) != (r["qd"] or None):
+                    c2 = copy.deepcopy(c)
+                    c2["q"] = comps_of(r2)["q"]
+                    asked.setdefault(comps_str(c2), "%s[%d]:q-of-neighbour-%d" % (kind, i, j))
+                    if r["qd"] and r2["qd"]:
+                        c3 = copy.deepcopy(c)
+                        c3["q"] = _q(c) + _q(comps_of(r2))
+                        asked.setdefault(comps_str(c3), "%s[%d]:q-plus-neighbour-%d" % (kind, i, j))
+        cfg = ("registered:%s" % "+".join(k for k, _ in items), app, regs)
+        for uri, label in asked.items():
+            allowed, reasons = oracle_match(uri, regs, native)
+            run_.ud.add(uri)
+            mut = label.split(":", 1)[1]
+            same = mut in REG_SAME
+            sensitive = ":q-" in label or same
+            key = mut in ("exact", "q-drop-all") or mut.startswith("q-of-neighbour")
+            for etype, cid in (("oidc", ob["cid"]), ("oauth2", "client_1")):
+                if etype == "oauth2" and not (key or full):
+                    continue
+                out = (self.op if etype == "oidc" else o2).verify(uri, cid=cid)
+                vrec = {"kind": "registered-verify", "registration": reginfo, "endpoint_type": etype, "mutation": label, "uri": uri,
+                        "out": out, "stored": ob["stored"]}
+                ctx.case_seen(vrec, True)
+                ctx.count("registered-verify:" + ("accepted" if out == "ok" else out))
+                obs = "(Ok tt)" if out == "ok" else EXC.get(out, "(Err TypeError)")
+                self.rvcases.append(("(%s, %s, %s, %s)" % (model, coq_bool(etype == "oidc"), self.sh.s(uri), obs), vrec))
+                if out == "ok" and not allowed:
+                    ctx.violation(sig_of(reasons), "after the registration of %r (%s) verify_uri (%s) accepts redirect_uri %r although %s; "
+                                  "stored: %r" % (sent, app, etype, uri, ",".join(reasons), ob["stored"]), vrec)
+                if out != "ok" and allowed and same:
+                    ctx.violation("registered-uri-refused", "after the registration of %r (%s) verify_uri (%s) refuses the registered "
+                                  "redirect_uri %r (%s); stored: %r" % (sent, app, etype, uri, out, ob["stored"]), vrec)
+                # the whole endpoint: whatever is accepted, every query near miss, a sample of the rest
+                if etype == "oidc":
+                    go = (key and (full or mut == "exact" or rng.random() < 0.5)) or (out == "ok" and rng.random() < 0.35) \
+                        or (sensitive and full) or rng.random() < 0.02
+                else:
+                    go = rng.random() < (0.2 if out == "ok" else 0.1 if key else 0.02)
+                if go:
+                    if etype == "oidc":
+                        # verify_response_type reads the client's response_types_supported, which a registration never
+                        # writes: a registered client is served the code flow only
+                        dyn = {"cid": cid, "op": self.op, "rtypes": ["code"], "coq": model, "rec": reginfo}
+                    else:
+                        dyn = {"cid": cid, "rtypes": RTYPES_OAUTH, "coq": model, "rec": reginfo}
+                    eobs = run_.endpoint_case(cfg, etype, label, uri, rng, dyn=dyn)
+                    if eobs is not None and allowed and same and eobs["redirect"] is None and eobs["page"] is None \
+                            and eobs["stage"] in ("parse-err", "parse-exc"):
+                        ctx.violation("registered-uri-refused", "after the registration of %r (%s) the %s authorization endpoint answers "
+                                      "the registered redirect_uri %r with a direct error %r"
+                                      % (sent, app, etype, uri, eobs["direct"]), vrec)
+        return ob
+
+    def run(self, rng, quick):
+        lists = reg_lists(rng, quick)
+        # URIs alone first: what is stored for a URI in company is compared with what is stored for it alone
+        lists.sort(key=lambda t: 0 if t[0] == "single" else 1)
+        for k, (family, app, items) in enumerate(lists):
+            http = any(r["scheme"] == "http" for _, r in items)
+            rts_pool = REG_RTS["native"] if app == "native" else REG_RTS["web-any" if http else "web-https"]
+            if family == "single":
+                # alone under both readings of response_types (a web client's http URI only with the code flow)
+                for rts in ([["code"]] if (app == "web" and http) else [["code"], rts_pool[1]]):
+                    self.flow(rng, family, app, rts, items)
+                continue
+            rts = rts_pool[k % len(rts_pool)]
+            self.flow(rng, family, app, rts, items, full=(not quick or k % 10 == 0))
+        # refused registrations: a URI that may not be registered at every position of short lists
+        for app, pool in (("native", NATIVE_POOL), ("web", WEB_POOL)):
+            good = list(pool)
+            for bk, bu in REG_BAD[app]:
+                for n in (0, 1, 2):
+                    items = rng.sample(good, n)
+                    if app == "web" and any(r["scheme"] == "http" for _, r in items):
+                        rts = ["code"]
+                    else:
+                        rts = rng.choice(REG_RTS["native" if app == "native" else "web-https"])
+                    for pos in range(n + 1):
+                        self.flow(rng, "with-" + bk, app, rts, items, bad=(pos, bk, bu))
+        # a web client that is not restricted to the code flow may not register http at all
+        self.flow(rng, "http-not-code-only", "web", ["code", "id_token"], [WEB_POOL[0], WEB_POOL[6]])
+        self.ctx.notes.append("registration -> authorization: %d registrations through the real endpoint, %d matcher decisions, "
+                              "%d endpoint decisions for registered clients" % (self.n_reg, len(self.rvcases), len(self.run_.rdcases)))
+
+    def groups(self):
+        imp = ["Lib.Base", "Lib.PyStr", "Model.Uri", "Model.RegFlow"]
+        return [
+            {"imports": imp, "type": "rcase", "chk": "chk_register", "cases": self.rcases, "label": "register",
+             "diag": "diag_register", "shared": self.sh, "shard": 150},
+            {"imports": imp, "type": "rvcase", "chk": "chk_reg_verify", "cases": self.rvcases, "label": "regverify",
+             "diag": "diag_reg_verify", "shared": self.sh, "shard": 300},
+            {"imports": imp, "type": "rdcase", "chk": "chk_reg_decide", "cases": self.run_.rdcases, "label": "regdecide",
+             "diag": "diag_reg_decide", "shared": self.sh, "shard": 300},
+        ]
+
+
 # ------------------------------------------------------------------ html.escape differential
 def html_cases(ctx, rng, n):
     import html
@@ -2095,6 +2448,10 @@ def run(ctx):
     extra += lo.run(rng, 40 if quick else 1500)
     # 6. html.escape itself
     extra += html_cases(ctx, rng, 200 if quick else 5000)
+    # 7. clients that REGISTER their redirect URIs (lists through the real registration endpoint), then authorization
+    rf = RegFlow(run_)
+    rf.run(rng, quick)
+    extra += rf.groups()
     run_.flush(extra)
     sigs = {}
     for v in ctx.violations:
@@ -2110,6 +2467,20 @@ def replay(ctx, rp):
         run_.verify_case(cfg, case["endpoint_type"], case["mutation"], case["uri"])
         run_.endpoint_case(cfg, case["endpoint_type"], case["mutation"], case["uri"], ctx.rng)
         run_.flush()
+        return
+    if case.get("kind") in ("registration", "registered-verify") or case.get("registration"):
+        # the recorded registration goes through the real endpoint again, followed by everything asked afterwards
+        reg = case if case.get("kind") == "registration" else case["registration"]
+        run_ = Run(ctx)
+        rf = RegFlow(run_)
+        items = [(k, r) for k, r in reg["items"]]
+        print("replaying the registration of %r (%s, response_types %r)" % (reg["redirect_uris"], reg["application_type"], reg["response_types"]))
+        if not reg.get("bad"):
+            for kr in items:
+                rf.flow(ctx.rng, "single", reg["application_type"], reg["response_types"], [kr])
+        rf.flow(ctx.rng, reg.get("family", "replay"), reg["application_type"], reg["response_types"], items,
+                bad=tuple(reg["bad"]) if reg.get("bad") else None)
+        run_.flush(rf.groups())
         return
     if case.get("kind") == "endpoint":
         cfg = [c for c in CONFIGS if c[0] == case["config"]][0]
